@@ -32,5 +32,10 @@ IsProperPrefixOf(u, w) == Len(u) < Len(w) /\ SubSeq(w, 1, Len(u)) = u
 RECURSIVE SetToSeq(_)
 SetToSeq(X) == IF X = {} THEN <<>> ELSE LET x == CHOOSE x \in X : TRUE IN <<x>> \o SetToSeq(X \ {x})
 
+(* all subsets of S with at most k elements (SUBSET S would enumerate 2^|S| sets) *)
+RECURSIVE SubsetsUpTo(_, _)
+SubsetsUpTo(S, k) == IF k = 0 THEN {{}}
+                     ELSE LET P == SubsetsUpTo(S, k - 1) IN P \cup {T \cup {x} : T \in P, x \in S}
+
 SeqIsSet(s) == \A i, j \in DOMAIN s : i # j => s[i] # s[j]
 =============================================================================
